@@ -54,6 +54,8 @@ const KNOWN_RULES: &[&str] = &[
     "as_deref",
     "const_static",
     "try_desugar",
+    "parse_lit",
+    "map_field",
 ];
 
 pub fn apply(repo: &str, req: &ItemReq, f: &mut FnUnderEdit) -> Result<(), String> {
@@ -226,6 +228,22 @@ pub fn apply(repo: &str, req: &ItemReq, f: &mut FnUnderEdit) -> Result<(), Strin
         v.visit_block_mut(&mut f.block);
         let n = v.n;
         f.fire("try_desugar", n);
+    }
+
+    // R25 "literal".parse() -> vx_parse_lit("literal")
+    if has("parse_lit") {
+        let mut v = ParseLit { n: 0 };
+        v.visit_block_mut(&mut f.block);
+        let n = v.n;
+        f.fire("parse_lit", n);
+    }
+
+    // R26 opt.map(|a| a.f) -> match opt { Some(a) => Some(a.f), None => None }
+    if has("map_field") {
+        let mut v = MapField { n: 0 };
+        v.visit_block_mut(&mut f.block);
+        let n = v.n;
+        f.fire("map_field", n);
     }
 
     // R11 generics
@@ -598,6 +616,63 @@ impl syn::parse::Parse for VecRepeat {
             return Err(input.error("trailing"));
         }
         Ok(VecRepeat { elem, len })
+    }
+}
+
+// ---------------------------------------------------------------- R26
+struct MapField {
+    n: usize,
+}
+fn field_chain_root(e: &syn::Expr) -> Option<String> {
+    match e {
+        syn::Expr::Field(f) => field_chain_root(&f.base),
+        syn::Expr::Path(p) => p.path.get_ident().map(|i| i.to_string()),
+        _ => None,
+    }
+}
+impl VisitMut for MapField {
+    fn visit_expr_mut(&mut self, e: &mut syn::Expr) {
+        visit_mut::visit_expr_mut(self, e);
+        if let syn::Expr::MethodCall(m) = e {
+            if m.method == "map" && m.args.len() == 1 {
+                if let Some(syn::Expr::Closure(c)) = m.args.first() {
+                    if c.inputs.len() == 1 {
+                        if let syn::Pat::Ident(pi) = &c.inputs[0] {
+                            if matches!(&*c.body, syn::Expr::Field(_))
+                                && field_chain_root(&c.body).as_deref() == Some(&pi.ident.to_string())
+                            {
+                                let recv = &m.receiver;
+                                let id = &pi.ident;
+                                let body = &c.body;
+                                *e = syn::parse_quote!(match #recv { Some(#id) => Some(#body), None => None });
+                                self.n += 1;
+                            }
+                        }
+                    }
+                }
+            }
+        }
+    }
+}
+
+// ---------------------------------------------------------------- R25
+struct ParseLit {
+    n: usize,
+}
+impl VisitMut for ParseLit {
+    fn visit_expr_mut(&mut self, e: &mut syn::Expr) {
+        visit_mut::visit_expr_mut(self, e);
+        if let syn::Expr::MethodCall(m) = e {
+            if m.method == "parse" && m.args.is_empty() && m.turbofish.is_none() {
+                if let syn::Expr::Lit(l) = &*m.receiver {
+                    if let syn::Lit::Str(_) = &l.lit {
+                        let recv = &m.receiver;
+                        *e = syn::parse_quote!(vx_parse_lit(#recv));
+                        self.n += 1;
+                    }
+                }
+            }
+        }
     }
 }
 
